@@ -1,8 +1,6 @@
 """Properties not claimed."""
 NOT_APPLICABLE = {
     "C02": "equality of whole-block symbolic maps with step-by-step concrete execution quantifies over runtime values of ~1500 semantics functions and map composition; no clause of it is visible in the shape of the code (state-dependent branching in semantics is legitimate), so any static rule would alarm on correct code",
-    "C04": "equivalence of the decision-tree index with a most-constrained-first linear scan is an algorithmic invariant of disassembler.setup/__call__ over all byte strings; the only static handles are textual matches of the adjust lambda / sort call, which would fire on behaviour-preserving refactors",
-    "C07": "agreement of instruction lengths with binutils/LLVM needs the decoder (or a faithful static length model of ~1700 x86/x64 setup functions) compared against a reference disassembler; prefix/ModRM/immediate interaction cannot be bounded statically here",
     "C09": "correctness under every concrete pointer assignment depends on overlap arithmetic and ordered replay of runtime write lists (mem.mods); nothing but values decides it",
 }
 # claimed in DESIGN.md but whose rules are not finished: listed as not applicable with reason "not built"
